@@ -4,7 +4,7 @@
    correspondence shards (C18/Corr.v).  Carrier: R; [cx] = R * R. *)
 From Coq Require Import Reals List Bool Arith.
 From Verif Require Import Base.Num Base.Vec Lib.Axis C18.Model C18.ModelW C18.ModelH C18.ProofsGrid C18.ProofsDFT C18.ProofsCx
-  C18.ProofsAxis C18.ProofsFT C18.ProofsTrue C18.ProofsHC C18.ProofsTrueHC C18.ProofsSum C18.ProofsW C18.ProofsH.
+  C18.ProofsAxis C18.ProofsFT C18.ProofsTrue C18.ProofsHC C18.ProofsTrueHC C18.ProofsSum C18.ProofsW C18.ProofsH C18.ProofsHN.
 Import ListNotations.
 Local Open Scope R_scope.
 
@@ -297,3 +297,61 @@ Theorem haar_adjoint_identity_odd_refuted :
 Proof. exact haar_adjoint_odd_refuted_sqrt2. Qed.
 Example even_chain_example : even_chain 3 24.
 Proof. cbn. repeat split. Qed.
+
+(* ------------------------------------------------------------------ *)
+(* W4: N-d, `axes=` option, different non-unit cell sides per axis (model haar_nd / inner_dom in
+   C18/ModelH.v; compared with WaveletTransform(..., axes=subset) on anisotropic 1-3-d spaces by the
+   correspondence, including the values returned by .adjoint, .inverse and .inverse.adjoint).
+   (a) a pair of line maps that splits the dot product, applied along an axis of a flat array,
+       splits the dot product of the arrays (any outer/inner sizes): the lifting lemma. *)
+Theorem along_axis_splits_dot : forall (S D : list R -> list R) (outer n inner p q : nat) (x y : list R),
+  (forall l, length l = n -> length (S l) = p) -> (forall l, length l = n -> length (D l) = q) ->
+  (forall l l', length l = n -> length l' = n -> dot (S l) (S l') + dot (D l) (D l') = dot l l') ->
+  length x = (n * inner * outer)%nat -> length y = (n * inner * outer)%nat ->
+  dot (along outer n inner p S x) (along outer n inner p S y)
+  + dot (along outer n inner q D x) (along outer n inner q D y) = dot x y.
+Proof. exact along_parseval2. Qed.
+Print Assumptions along_axis_splits_dot.
+
+(* (b) the multi-level Haar/periodization transform over ANY list of axes of an array of ANY
+       dimension is orthogonal whenever every transformed axis is even on every level. *)
+Theorem haar_nd_is_orthogonal : forall (L : nat) (axes shape : list nat) (x y : list R),
+  even_chain_nd L shape axes -> length x = prodn shape -> length y = prodn shape ->
+  dot (haar_nd (sqrt 2) L shape axes x) (haar_nd (sqrt 2) L shape axes y) = dot x y.
+Proof. exact haar_nd_parseval_sqrt2. Qed.
+Print Assumptions haar_nd_is_orthogonal.
+
+(* (c) the adjoint in the WEIGHTED spaces: domain inner product = (product of ALL cell sides) * dot,
+       coefficient space unweighted.  For every right inverse Winv of W (W.inverse is one: checked
+       by the correspondence; proved for 1-d, see haar_reconstruction / haar_adjoint_identity_partial)
+       the operator (1 / FULL cell volume) * Winv satisfies the adjoint identity, for any axes subset
+       and any cell sides ... *)
+Theorem haar_nd_weighted_adjoint_identity : forall (L : nat) (shape axes : list nat) (sides : list R)
+    (Winv : list R -> list R) (x c : list R),
+  even_chain_nd L shape axes -> cell_volume sides <> 0 ->
+  (forall c', length (Winv c') = prodn shape /\ haar_nd (sqrt 2) L shape axes (Winv c') = c') ->
+  length x = prodn shape ->
+  dot (haar_nd (sqrt 2) L shape axes x) c
+  = inner_dom sides x (vscal (1 / cell_volume sides) (Winv c)).
+Proof. exact haar_nd_weighted_adjoint_sqrt2. Qed.
+Print Assumptions haar_nd_weighted_adjoint_identity.
+
+(* (d) ... and NO other scale does: a scale built from the transformed axes' cell sides only (or any
+       other constant) violates the identity on every pair with <W x, c> <> 0. *)
+Theorem haar_nd_adjoint_scale_is_full_cell_volume : forall (L : nat) (shape axes : list nat)
+    (sides : list R) (Winv : list R -> list R) (s : R) (x c : list R),
+  even_chain_nd L shape axes -> cell_volume sides <> 0 ->
+  (forall c', length (Winv c') = prodn shape /\ haar_nd (sqrt 2) L shape axes (Winv c') = c') ->
+  length x = prodn shape -> dot (haar_nd (sqrt 2) L shape axes x) c <> 0 ->
+  dot (haar_nd (sqrt 2) L shape axes x) c = inner_dom sides x (vscal s (Winv c)) ->
+  s = 1 / cell_volume sides.
+Proof. exact haar_nd_adjoint_scale_unique_sqrt2. Qed.
+Print Assumptions haar_nd_adjoint_scale_is_full_cell_volume.
+
+(* the right-inverse premise is satisfiable: on 1-d arrays haar_nd is haar, whose right inverse
+   ihaar is proved in ProofsH *)
+Theorem haar_nd_on_1d_is_haar : forall (L : nat) (x : list R),
+  haar_nd (sqrt 2) L [length x] [0%nat] x = haar (sqrt 2) L x.
+Proof. exact (haar_nd_1d (sqrt 2)). Qed.
+Example even_chain_nd_example : even_chain_nd 2 [4; 3; 8]%nat [2; 0]%nat.
+Proof. exact even_chain_nd_example_holds. Qed.
